@@ -10,6 +10,8 @@ CONSTANTS
   Plus = "add"
   Times = "mul"
   LeafKind = "lin"
+  CopyCap = 99
+  ElimAll = FALSE
   Param = TRUE
   Tag = "sp_addmul_param"
 INVARIANT Inv_OracleInputs
